@@ -21,7 +21,7 @@ import (
 
 //verif:include ../dnsdata/rdb/zz_verif_model.go
 //verif:include ../db/zz_verif_world.go
-//verif:harness H14_hb property=C14 native=no quick=layout=2,sched=0,watch=0,cache=0,pre=0;layout=0,sched=0,watch=0,cache=1,pre=0;layout=1,sched=0,watch=1,cache=1,pre=0;layout=2,sched=1,watch=0,cache=0,pre=1;layout=2,sched=1,watch=0,cache=0,pre=2;layout=1,sched=1,watch=0,cache=0,pre=3;layout=0,sched=1,watch=0,cache=1,pre=4 thorough=layout=1,sched=1,watch=0,cache=0,pre=2;layout=2,sched=1,watch=0,cache=0,pre=3;layout=2,sched=0,watch=1,cache=1,pre=0;layout=0,sched=0,watch=1,cache=0,pre=0;layout=2,sched=1,watch=0,cache=0,pre=0;layout=0,sched=2,watch=0,cache=1,pre=1
+//verif:harness H14_hb property=C14 native=no quick=layout=2,sched=0,watch=0,cache=0,pre=0;layout=0,sched=0,watch=0,cache=1,pre=0;layout=1,sched=0,watch=1,cache=1,pre=0;layout=2,sched=1,watch=0,cache=0,pre=1;layout=2,sched=1,watch=0,cache=0,pre=2;layout=1,sched=1,watch=0,cache=0,pre=3;layout=0,sched=1,watch=0,cache=1,pre=4 thorough=layout=1,sched=1,watch=0,cache=0,pre=2;layout=2,sched=1,watch=0,cache=0,pre=3;layout=2,sched=0,watch=1,cache=1,pre=0;layout=0,sched=0,watch=1,cache=0,pre=0;layout=1,sched=1,watch=0,cache=0,pre=1
 
 func H14_hb() {
 	verifLayout = nd.Param("layout")
